@@ -333,7 +333,8 @@ class MinGenSet():
         # Solve for increasing numbers of elements in the generating set
         # A partition constraint with t parts can force up to t - 1 further elements into the generating set
         extra_for_partitions = sum(len(constraint) - 1 for constraint in (self.partition_constraints or []))
-        for k in range(self.lowerbound, max(self.lowerbound+1, len(self.initial_numbers)+2+extra_for_partitions)):
+        # (a generating set has at least one element: a lower bound of 0 would give an empty model)
+        for k in range(max(1, self.lowerbound), max(self.lowerbound+1, len(self.initial_numbers)+2+extra_for_partitions)):
             self._create_solver(k=k)
             self.solver.optimize()
 
